@@ -1510,11 +1510,11 @@ func TestCheck(t *testing.T) {
 		}
 	}
 
-	nSeq := r.N(150, 2000)
+	nSeq := r.N(150, 4000)
 	for i := 0; i < nSeq; i++ {
 		runSequential(r, i, nil)
 	}
-	nConc := r.N(40, 400)
+	nConc := r.N(40, 800)
 	for i := 0; i < nConc; i++ {
 		runConcurrent(r, i)
 	}
